@@ -432,7 +432,13 @@ def structural_guards(fn_node, target):
             guards.append((st.test, True))
         elif isinstance(st, ast.Assert):
           guards.append((st.test, True))
-  return guards
+  # `not c` holding is `c` not holding
+  out = []
+  for t, p in guards:
+    while isinstance(t, ast.UnaryOp) and isinstance(t.op, ast.Not):
+      t, p = t.operand, not p
+    out.append((t, p))
+  return out
 
 
 def _path_to(root, target):
